@@ -46,9 +46,19 @@ Inductive describe_result :=
 | DrSdp                 (* 200 with the stream description *)
 | DrChallengeBasic      (* 401 WWW-Authenticate: Basic *)
 | DrChallengeDigest     (* 401 WWW-Authenticate: Digest *)
-| DrClosed.             (* handler returns an error: connection closed, nothing written *)
+| DrClosed              (* handler returns an error: connection closed, nothing written *)
+| DrAnnounced.          (* ANNOUNCE accepted: 200, the connection now carries a publish session *)
 Definition dr_code (r : describe_result) : N :=
-  match r with DrSdp => 0 | DrChallengeBasic => 1 | DrChallengeDigest => 2 | DrClosed => 3 end.
+  match r with DrSdp => 0 | DrChallengeBasic => 1 | DrChallengeDigest => 2 | DrClosed => 3 | DrAnnounced => 4 end.
+
+(* a request on an RTSP command connection, as far as this model goes *)
+Inductive rtsp_req :=
+| RqDescribe (hdr : bytes)        (* DESCRIBE with this Authorization header value ("" = none) *)
+| RqAnnounce (observer_ok : bool). (* ANNOUNCE; whether the observer (ServerManager.OnNewRtspPubSession) accepts the publisher *)
+
+(* the answer means that the connection carries a play / publish session from now on *)
+Definition is_admitted (r : describe_result) : bool :=
+  match r with DrSdp => true | DrAnnounced => true | _ => false end.
 
 Section RtspAuth.
   Variable md5raw : bytes -> bytes.
@@ -145,7 +155,31 @@ Section RtspAuth.
         end
     end.
 
+  (* the same sequence on the trees before "a second ANNOUNCE / DESCRIBE on an RTSP command
+     connection that already carries a publish or play session is an error" is
+     [describe_session_gen] above.  Since that change handleDescribe and handleAnnounce start
+     with `if session.pubSession != nil || session.subSession != nil { return ErrRtsp }`
+     - before any authentication - so one command connection carries at most one session:
+     [has] = the connection already carries one.  ANNOUNCE is not subject to RTSP
+     authentication in lal (only to simple auth, through the observer). *)
+  Fixpoint rtsp_conn (c : rtsp_conf) (a : auth) (has : bool) (reqs : list rtsp_req) : list describe_result :=
+    match reqs with
+    | [] => []
+    | q :: t =>
+        if has then [DrClosed]
+        else
+          match q with
+          | RqDescribe h =>
+              let '(a1, r) := handle_describe_gen true true c a h in
+              match r with
+              | DrClosed => [DrClosed]
+              | _ => r :: rtsp_conn c a1 (is_admitted r) t
+              end
+          | RqAnnounce ok =>
+              if ok then DrAnnounced :: rtsp_conn c a true t else [DrClosed]
+          end
+    end.
+
   Definition parse_authorization := parse_authorization_gen true.
   Definition handle_describe := handle_describe_gen true true.
-  Definition describe_session := describe_session_gen true true.
 End RtspAuth.
